@@ -91,6 +91,13 @@ FamilyProps(fam) ==
       [] fam = "errbuf" -> {"C19"}
       [] OTHER -> {}
 
+\* outside the numeric envelope (DESIGN 2.4): a result within a factor 2^16 of the largest finite number of the
+\* element type may overflow in a legitimate intermediate step - such elements are not judged
+NearOverflow(el, ref) == QLt(QPow2(IF el = "f32" THEN 111 ELSE 1007), QAbs(ref))
+
+\* the property that states which VALUE an in-range query returns: a rejected / panicking in-range call violates it too
+ValueProp(sk) == CASE sk = "Linear" -> "C01" [] sk = "Spline" -> "C02" [] sk = "Bilinear" -> "C04" [] OTHER -> "C05"
+
 ----------------------------------------------------------------------------
 \* violations of the bit-for-bit clause of C15 for a batch query on a related object
 RelViolations(ev, o, res, twoD) ==
@@ -288,7 +295,7 @@ JudgeLinElem(o, lane, qb, q, obsb) ==
                         ELSE Line(o.x[i], y1, o.x[i + 1], y2, q)
                  tau == Tau(o.x[i], o.x[i + 1], q)
                  tol == IF o.el \in {"i32", "i64"} THEN Q0 ELSE TolLin(o.el, y1, y2, ref, tau)
-                 good == IsFin(obs) /\ QLe(QAbs(QSub(obs, ref)), tol)
+                 good == NearOverflow(o.el, ref) \/ (IsFin(obs) /\ QLe(QAbs(QSub(obs, ref)), tol))
                  inr == InRange(o.x, q)
              IN [ok |-> good,
                  class |-> IF ~inr THEN "extrap" ELSE IF q = o.x[i] \/ q = o.x[i + 1] THEN "knot" ELSE "inner",
@@ -313,7 +320,7 @@ JudgeSplElem(o, lane, qb, q, obsb) ==
             tau == Tau(o.x[i], o.x[i + 1], qq)
             tol == IF wrap THEN QAdd(TolSpline(o.el, sp, tau), TolWrap(o.el, sp, o.x, q)) ELSE TolSpline(o.el, sp, tau)
             obs == QDecode(o.el, obsb)
-            good == IsFin(obs) /\ QLe(QAbs(QSub(obs, ref)), tol)
+            good == NearOverflow(o.el, ref) \/ (IsFin(obs) /\ QLe(QAbs(QSub(obs, ref)), tol))
         IN  [ok |-> good,
              class |-> (IF wrap THEN "wrap" ELSE IF ~inr THEN "extrap" ELSE IF q = o.x[i] \/ q = o.x[i + 1] THEN "knot" ELSE "inner"),
              props |-> (IF wrap THEN {"C07"} ELSE IF ~inr THEN {"C06"} ELSE {"C02", "C03"}) \cup (IF Has(o, "poly") THEN {"C16"} ELSE {}),
@@ -361,7 +368,7 @@ DoQ1(ev) ==
                 (IF allIn /\ ev.out # "Ok" THEN
                     (IF isInto /\ ev.out = "Panic" /\ ev.buf.lay # "C"
                      THEN <<V({"C13"}, "C13|" \o ev.en \o "|layout-rejected|" \o ev.buf.lay, <<ev.buf.s, ev.buf.st, ev.pm>>)>>
-                     ELSE <<V({"C05"}, "C05|" \o ev.en \o "|in-range-rejected", <<ev.out, ev.pm>>)>>)
+                     ELSE <<V({"C05", ValueProp(sk)}, "C05|" \o ev.en \o "|in-range-rejected", <<ev.out, ev.pm>>)>>)
                  ELSE IF ~allIn /\ ev.out = "Ok" THEN <<V({"C05"}, "C05|" \o ev.en \o "|out-of-range-answered", <<ev.q.v>>)>>
                  ELSE IF ~allIn /\ ev.out # "Err:OutOfBounds" THEN <<V({"C05"}, "C05|" \o ev.en \o "|not-OutOfBounds", <<ev.out, ev.pm>>)>>
                  ELSE <<>>)
@@ -369,7 +376,8 @@ DoQ1(ev) ==
                 (IF ev.out # "Ok" THEN
                     (IF isInto /\ ev.out = "Panic" /\ ev.buf.lay # "C"
                      THEN <<V({"C13"}, "C13|" \o ev.en \o "|layout-rejected|" \o ev.buf.lay, <<ev.buf.s, ev.buf.st, ev.pm>>)>>
-                     ELSE <<V({"C06"}, "C06|" \o ev.en \o "|finite-rejected", <<ev.out, ev.pm>>)>>) ELSE <<>>)
+                     ELSE <<V({"C06"} \cup (IF allIn THEN {ValueProp(sk)} ELSE {}) \cup (IF sk = "Spline" /\ o.st.bc = "Periodic" THEN {"C07"} ELSE {}),
+                           "C06|" \o ev.en \o "|finite-rejected", <<ev.out, ev.pm>>)>>) ELSE <<>>)
             ELSE <<>>
         res == ResultOf(ev)
         N == nq * L
@@ -508,7 +516,7 @@ JudgeBilElem(o, lane, qxb, qyb, qx, qy, obsb) ==
             ty == Tau(o.y[j], o.y[j + 1], qy)
             tol == TolBil(o.el, zs, ref, tx, ty)
             inr == InRange(o.x, qx) /\ InRange(o.y, qy)
-            good == IsFin(obs) /\ QLe(QAbs(QSub(obs, ref)), tol)
+            good == NearOverflow(o.el, ref) \/ (IsFin(obs) /\ QLe(QAbs(QSub(obs, ref)), tol))
             onx == qx = o.x[i] \/ qx = o.x[i + 1]
             ony == qy = o.y[j] \/ qy = o.y[j + 1]
         IN  [ok |-> good,
@@ -545,7 +553,7 @@ DoQ2(ev) ==
                 (IF allIn /\ ev.out # "Ok" THEN
                     (IF isInto /\ ev.out = "Panic" /\ ev.buf.lay # "C"
                      THEN <<V({"C13"}, "C13|" \o ev.en \o "|layout-rejected|" \o ev.buf.lay, <<ev.buf.s, ev.buf.st, ev.pm>>)>>
-                     ELSE <<V({"C05"}, "C05|" \o ev.en \o "|in-range-rejected", <<ev.out, ev.pm>>)>>)
+                     ELSE <<V({"C05", ValueProp(sk)}, "C05|" \o ev.en \o "|in-range-rejected", <<ev.out, ev.pm>>)>>)
                  ELSE IF ~allIn /\ ev.out = "Ok" THEN <<V({"C05"}, "C05|" \o ev.en \o "|out-of-range-answered", <<ev.q.v, ev.q2.v>>)>>
                  ELSE IF ~allIn /\ ev.out # "Err:OutOfBounds" THEN <<V({"C05"}, "C05|" \o ev.en \o "|not-OutOfBounds", <<ev.out, ev.pm>>)>>
                  ELSE <<>>)
@@ -553,7 +561,7 @@ DoQ2(ev) ==
                 (IF ev.out # "Ok" THEN
                     (IF isInto /\ ev.out = "Panic" /\ ev.buf.lay # "C"
                      THEN <<V({"C13"}, "C13|" \o ev.en \o "|layout-rejected|" \o ev.buf.lay, <<ev.buf.s, ev.buf.st, ev.pm>>)>>
-                     ELSE <<V({"C06"}, "C06|" \o ev.en \o "|finite-rejected", <<ev.out, ev.pm>>)>>) ELSE <<>>)
+                     ELSE <<V({"C06"} \cup (IF allIn THEN {ValueProp(sk)} ELSE {}), "C06|" \o ev.en \o "|finite-rejected", <<ev.out, ev.pm>>)>>) ELSE <<>>)
             ELSE <<>>
         res == ResultOf(ev)
         N == nq * L
